@@ -68,3 +68,12 @@ def detach(op, t):
     scale = op(t._scale)
     zeropoint = op(t._zeropoint)
     return t.__class__(t._qtype, t._axis, t._group_size, t.size(), t.stride(), data, scale, zeropoint)
+
+
+@register_qbitstensor_op([torch.ops.aten.clone])
+def clone(op, t, memory_format=torch.preserve_format):
+    # Clone is required when copying a module (copy.deepcopy)
+    data = op(t._data.unpack(), memory_format=memory_format)
+    scale = op(t._scale, memory_format=memory_format)
+    zeropoint = op(t._zeropoint, memory_format=memory_format)
+    return QBitsTensor.create(t._qtype, t._axis, t._group_size, t.size(), t.stride(), data, scale, zeropoint)
